@@ -895,16 +895,18 @@ impl Release {
 
     /// Get whether the release has no support for architecture all
     pub fn no_support_for_architecture_all(&self) -> bool {
+        // Release files spell the field "No-Support-for-Architecture-all" and give it the name of
+        // the index concerned ("Packages"); anything but an explicit "no" means no support
         self.0
-            .get("No-Support-For-Architecture-All")
-            .map(|s| s == "yes")
+            .get("No-Support-for-Architecture-all")
+            .map(|s| s != "no")
             .unwrap_or(false)
     }
 
     /// Set whether the release has no support for architecture all
     pub fn set_no_support_for_architecture_all(&mut self, no_support_for_architecture_all: bool) {
         self.0.set(
-            "No-Support-For-Architecture-All",
+            "No-Support-for-Architecture-all",
             if no_support_for_architecture_all {
                 "yes"
             } else {
